@@ -124,14 +124,16 @@ NET_ASSUME = ["a clean batch is evidence, not proof", "true parallel data races 
 
 PROPS["C01"] = dict(
     engine="netsim", level="exploration",
-    quick=dict(runs=24000, workers=16, stall_s=180),
-    thorough=dict(budget_s=900, workers=16, stall_s=300),
-    rule="one evaluation = one seeded run of two real stacks joined by the simulated wire: 1-3 TCP connections, data both ways at once (position-keyed "
+    quick=dict(runs=24000, workers=16, stall_s=180, variants=["tcpab", "tcpab", "tcpab", "window"]),
+    thorough=dict(budget_s=900, workers=16, stall_s=300, variants=["tcpab", "tcpab", "tcpab", "window"]),
+    rule="(three quarters of the workers) one evaluation = one seeded run of two real stacks joined by the simulated wire: 1-3 TCP connections, data both ways at once (position-keyed "
          "bytes), random write/read chunking and reader stalls, per-run swarm configuration (IPv4/IPv6, SACK per side, Reno/CUBIC, MTU 68-9000, "
          "send/receive buffers 1 KB-1 MB, initial sequence numbers placed just below 2^31/2^32 on either side), wire faults drop/duplicate/reorder/"
          "delay/stale-replay with a finite budget, seeded yields; then a fault-free drain. non-trivial = at least one fault fired and a retransmission was "
-         "seen on the wire; distinct = distinct hash of the full event log (every emitted and injected frame with its fake timestamp)",
-    expected_probes=["retransmission_seen", "sack_block_emitted", "segment_straddles_2^31", "segment_straddles_2^32", "zero_window_advertised"],
+         "seen on the wire; distinct = distinct hash of the full event log (every emitted and injected frame with its fake timestamp). (one quarter of the "
+         "workers) the scripted-peer variant: one connection against a raw peer that acknowledges at arbitrary points (also inside a segment), shrinks and "
+         "reopens its window, sends out-of-order, duplicate and beyond-window segments, with MSS/window-scale/timestamp/SACK options drawn per run",
+    expected_probes=["retransmission_seen", "sack_block_emitted", "segment_straddles_2^31", "segment_straddles_2^32", "zero_window_advertised", "acks_sent", "out_of_order_segments"],
     real=NET_REAL, stubs=NET_STUBS, assumptions=NET_ASSUME,
     hang_is_violation=True,
     level_text="seeded search over fault schedules x interleavings x configurations against the real code of both stacks; after every Read the bytes "
@@ -204,6 +206,28 @@ PROPS["C03"] = dict(
                "socket draws exactly one reset acknowledging it (sequence 0 without ACK), a reset is never answered; evidence, not proof",
     level_note="'a correct handshake does yield a connection' is asserted only for loss-free handshakes whose third segment is a bare ACK (a data-bearing "
                "third segment may be dropped and retransmitted: the statement only restricts when a connection may be handed out)",
+)
+
+PROPS["C04"] = dict(
+    engine="netsim", level="exploration",
+    quick=dict(runs=9600, workers=16, stall_s=180),
+    thorough=dict(budget_s=900, workers=16, stall_s=300),
+    rule="one evaluation = one seeded history of 20-200 steps on one connection between a real stack and the scripted peer (opened actively or passively; "
+         "peer MSS absent/1/88/536/1460/65535, window scale absent/0..14, timestamps, SACK, MTU 576-9000, buffers 4 KB-1 MB, Reno/CUBIC). Sender role: "
+         "application writes of 1 B-70 KB; peer ACKs everything / half of it (also inside a segment) / repeats, with windows 0, 1, tiny, uniform, 65535; "
+         "ICMP fragmentation-needed / packet-too-big with smaller MTUs. Receiver role: in-order in-window data, segments wholly beyond the right edge "
+         "(distinguishable content), duplicates, out-of-order segments; the application reads, stalls until the window is 0, drains. non-trivial = data "
+         "flowed and (sender) more than two ACKs were sent or (receiver) the application read data; distinct = distinct event-log hash",
+    expected_probes=["acks_sent", "zero_window_offered", "packet_too_big", "in_window_segments", "beyond_window_segments", "out_of_order_segments",
+                     "reader_stalled_until_zero_window", "window_reopened", "zero_window_advertised"],
+    real=NET_REAL, stubs=NET_STUBS + PEER_STUB, assumptions=NET_ASSUME,
+    hang_is_violation=True,
+    level_text="seeded search over window/ACK/MSS/MTU histories; every data segment must end at or before the largest right edge the peer has offered so far "
+               "(after scaling), carry at most the peer's MSS (536 if none) and fit the path MTU told to the stack; the stack's own advertised right edge "
+               "never moves left by 2^scale or more, in-order in-window data is acknowledged, data sent only beyond the edge is never returned by Read, "
+               "a stalled reader closes the window and draining it re-opens it without peer traffic; evidence, not proof",
+    level_note="the largest-edge-ever bound is sound when the script shrinks the window and tight when it does not; segments queued before a packet-too-big "
+               "message may still leave at the old size within the same step",
 )
 
 PENDING = "check not built yet (work in progress; will be claimed once its simulation exists)"
